@@ -39,6 +39,8 @@ def run(shard, rec, tier, seed):
                 rec.count("base-spec-rejected-by-generator")
                 continue
             rec.count("trees-staged")
+            if t.generator_reused:
+                rec.count("trees-generated-by-an-instance-that-read-an-earlier-revision")
             rng = random.Random("C19-%d-%d" % (seed, ti))
             for name, decl, path in spec.classes():
                 vg = ValueGen(t.interp, rng, "nd")
